@@ -167,6 +167,8 @@ static int cif_container_create_loop_internal(
         SET_RESULT(CIF_MEMORY_ERROR);
     } else {
 
+        /* must be set before anything can fail, because cif_loop_free() is applied to the object in that case */
+        temp->names = NULL;
         temp->category = cif_u_strdup(category);
         if ((category != NULL) && (temp->category == NULL)) {
             SET_RESULT(CIF_MEMORY_ERROR);
@@ -174,7 +176,6 @@ static int cif_container_create_loop_internal(
             NESTTX_HANDLING;
 
             TRACELINE;
-            temp->names = NULL;
 
             /* begin a transaction */
             if (BEGIN_NESTTX(cif->db) == SQLITE_OK) {
